@@ -1,6 +1,8 @@
 // corr: correspondence harness. Runs the real gohbase code (built from the working tree with
 // -tags verif) on generated inputs and prints one driver line per case:
-//   <model> <op> <inputs…> <implementation outputs…>
+//
+//	<model> <op> <inputs…> <implementation outputs…>
+//
 // The Lean driver replays the model on the same inputs and judges the outputs.
 package main
 
